@@ -46,7 +46,7 @@ class import_mirrors_text:
     """C02: one stage per non-empty line, one node per cell (in order), parent = the cell above on the same spine path, header and
     spine id of the spine, literal cell text; a line with surplus cells is rejected with an exception."""
     def inputs(g):
-        score, rng = doc_inputs(g)
+        score, rng = doc_inputs(g, hidden_bars=True)
         return {'score': score, 'extra_row': rng.randrange(len(score.rows)), 'blank': rng.random() < 0.3, 'via_file': rng.random() < 0.4}
 
     def post_tree_mirrors_grid(score, blank, via_file):
@@ -499,7 +499,7 @@ def rng_measures(g):
 @contract(None, props=['C17'], bounded=BOUND + '; with global comments before, inside and after the spines; single categories and random sets')
 class token_queries_agree:
     def inputs(g):
-        score, rng = doc_inputs(g)
+        score, rng = doc_inputs(g, hidden_bars=True)
         cats = rng.sample(list(TokenCategory), rng.choice([1, 1, 2, 5]))
         return {'score': score, 'cats': cats, 'key': rng.choice(['COM', 'OTL', 'ENC', 'nokey'])}
 
